@@ -1,1 +1,103 @@
-# Filled in as checks come online. row(pid, engine, technique, level text, level note, built=True)
+# One row per property: row(pid, engine, technique, level text, level note, built=True/False).
+# `built=False` rows are listed under not_applicable ("not built yet") until the check is registered.
+NB = "check not built / not validated yet (build in progress); nothing is claimed for this property"
+
+BUILT = set(open(os.path.join(ROOT, "tools", "built.txt")).read().split())
+
+def r(pid, engine, technique, text, note):
+    row(pid, engine, technique, text, note if pid in BUILT else NB, built=pid in BUILT)
+
+TB_MODEL = "trusted: the harness-side instrumented market (derived from the repo's TestMarket) wires the public model traits faithfully; BigInt oracle arithmetic (num-bigint); PRNG coverage only — nothing outside the generated cases is claimed"
+TB_SVM = "trusted: hostsvm (harness runtime: CPI privilege rules, atomicity, sysvars; no compute/heap limits), real SPL processors, world builders; PRNG coverage only"
+TB_LIB = "trusted: BigInt / BTreeMap reference models in the harness; PRNG coverage only"
+
+r("C01", E1, "runtime monitor: real fixed-point helpers vs exact BigInt oracle on boundary-biased generated operands",
+  "Exploration: 10^6–10^8 generated operand tuples per run for both numeric instantiations (u64/9, u128/20); every returned value is compared with the exactly rounded BigInt result, every None/Err must have a documented reason. Right level because the property is input-universal over pure functions: sampling with boundary bias reaches type limits and rounding edges the three literal inputs of the unit tests do not.", TB_MODEL)
+r("C02", E1, "runtime monitor: fee splitting conservation and bounds vs BigInt formulas",
+  "Exploration over generated amounts / fee, receiver and discount factors (incl. >100%) for swap, deposit, withdrawal, order and liquidation fees: exact conservation net+pool+receiver==gross, fee<=gross, discount monotone, invalid factors fail.", TB_MODEL)
+r("C03", E1, "runtime monitor: price impact sign / round-trip oracle on generated pools and deltas",
+  "Exploration over generated pool balances, deltas, prices, exponents and factor pairs (incl. positive>negative): sign rules, round-trip non-positivity, capped positive factor, virtual-inventory min rule, checked on PoolDelta::price_impact, swap and position impact.", TB_MODEL)
+r("C04", E1, "runtime monitor: per-swap conservation + atomicity over random market histories",
+  "Exploration: random histories on an instrumented market; after every swap the holdings of token-in/out must move by exactly the traded amounts; a failed swap must leave every pool bit-identical (no snapshot/restore by the driver).", TB_MODEL)
+r("C05", E1, "runtime monitor: BigInt value bound on every executed swap",
+  "Exploration: out*P_out.max <= in*P_in.min + funded positive impact (+ stated rounding), exact equality of the zero-fee zero-impact case, over random states / spreads / impact configs.", TB_MODEL)
+r("C06", E1, "runtime monitor: deposit→withdraw round trip and per-LP value (exact rationals) over random histories",
+  "Exploration: round trips on states reached by random deposits / swaps / positions; value out <= value in, market-token value of other LPs not lowered beyond stated integer rounding, first deposit priced at 1 USD.", TB_MODEL)
+r("C07", E1, "runtime monitor: reference position set vs the six aggregate pools after every operation",
+  "Exploration: random interleavings of increase / partial and full decrease / collateral-only / liquidation / failed attempts over 2–6 positions; exact equality of OI (usd, tokens) and collateral sums with the reference set.", TB_MODEL)
+r("C08", E1, "runtime monitor: shadow token ledger fed from operation reports vs accounted holdings",
+  "Exploration: conservation ledger per token after every operation, funding residual tracked with reported shortfalls; clock advanced between operations, funding / borrowing configs varied.", TB_MODEL)
+r("C09", "model-mon + store-mon", "runtime monitor: BigInt liquidation-threshold recomputation (model) + real liquidate / ADL instructions in hostsvm",
+  "Exploration at two levels: model level (thresholds recomputed exactly, cases placed at threshold±1 by bisection) and instruction level (liquidation closes the whole position; simulated liquidation right after an increase is rejected; ADL factor before/after recomputed from accounts).", TB_MODEL + "; " + TB_SVM)
+r("C10", E1, "runtime monitor: open-then-close round trips at unchanged prices",
+  "Exploration over sizes, leverages, collateral tokens, sides, states and impact/fee settings; total received <= collateral in + one base unit per operation.", TB_MODEL)
+r("C11", E1, "runtime monitor: pnl monotonicity / cap / proportional share on cloned states",
+  "Exploration over positions, price pairs, pool states, trader pnl caps; exact BigInt pnl recomputation.", TB_MODEL)
+r("C12", E1, "runtime monitor: funding rate bounds and index monotonicity over histories",
+  "Exploration over open-interest configurations, elapsed times, adaptive and non-adaptive funding parameter sets; indices never decrease, rate bounds, larger side pays.", TB_MODEL)
+r("C13", E1, "runtime monitor: borrowing accounting vs reference position set",
+  "Exploration: cumulative factors monotone, total borrowing equals Σ size×factor over the reference set, pending fees computable, incl. kink model.", TB_MODEL)
+r("C14", E1, "runtime monitor: impact-pool distribution vs closed-form oracle",
+  "Exploration over pool amounts, minimums, rates, elapsed times incl. 0 and huge, repeated distributions.", TB_MODEL)
+r("C15", E4, "runtime monitor: pure-pool delta sequences vs single-total reference, program and SDK pools differential",
+  "Exploration over totals up to u128::MAX and random signed-delta sequences on both pool implementations.", TB_LIB)
+r("C16", E4, "runtime monitor: sentinel write/read-back of every config key through an independent key→accessor table",
+  "Enumeration of every MarketConfigKey / flag / store key (EnumIter) with sentinel and random values; byte-diff confinement; program and SDK views.", TB_LIB)
+r("C17", E2, "runtime monitor: freshly initialised market (real initialize_market in hostsvm) vs hand-written defaults table",
+  "Enumeration of every config key and flag for pure and impure markets created through the real instruction.", TB_SVM)
+r("C18", E2, "runtime monitor: role store vs set-of-grants reference model (direct and instruction level)",
+  "Exploration over random enable/disable/grant/revoke/has sequences up to the 32-role / 64-member capacities, with and without pending cluster restart.", TB_SVM)
+r("C19", E2, "runtime monitor: authority-mutation replay of traced successful transactions (role revoked / stranger / other-role holder)",
+  "Exploration: every privileged store instruction that any traced workload executed successfully is replayed from its pre-state with mutated authority and must be rejected; instructions without a positive scenario are listed as uncovered in the evidence, never counted as held.", TB_SVM + "; privilege table hand-written from the instruction docs")
+r("C20", E2, "runtime monitor: keeper permission policy reference vs real update_market_config(_flag/_with_buffer)",
+  "Exploration over all keys and flags, updatable-permission changes, four actor classes, buffers mixing entries, expired buffers.", TB_SVM)
+r("C21", E2, "runtime monitor: overlay reference model vs the real RevertibleMarket buffer (hooked constructor)",
+  "Exploration over begin/read/write/commit/abandon sequences across all pool kinds, clocks and other state.", TB_SVM)
+r("C22", E2, "runtime monitor: solvency invariant after every successful instruction of random multi-market histories in hostsvm",
+  "Exploration: 4 markets sharing two vaults (one single-token market); deposits, withdrawals, shifts, swap/position orders with swap paths, liquidations, ADL, fee claims, keeper transfers; invariant checked at every quiescent point (after each successful transaction).", TB_SVM)
+r("C23", E2, "runtime monitor: action lifecycle automaton + escrow/lamport conservation over random histories in hostsvm",
+  "Exploration: create/execute/close by owner, keeper, stranger; throwing and non-throwing executions, stale prices, double executions; automaton and close rules checked after every transaction.", TB_SVM)
+r("C24", E2, "runtime monitor: independent re-derivation of oracle acceptance + cleared-after-use invariant",
+  "Exploration over oracle settings, feed timestamps / spreads, clock moves, token subsets (real set_prices_from_price_feed), and the exchange workload for the cleared-after-use rule.", TB_SVM)
+r("C25", E2, "runtime monitor: custom price feed monotonicity over random update sequences (real instruction)",
+  "Exploration over report timestamps, prices, clock moves, strict / idempotent modes.", TB_SVM)
+r("C26", E3, "runtime monitor: price decimal conversion vs BigInt truncation oracle",
+  "Exploration / enumeration over decimals, precisions and boundary prices up to u128::MAX.", TB_LIB)
+r("C27", E3, "runtime monitor: market openness vs exact i128 restatement",
+  "Exploration over statuses × policy flags × timestamps near the 64-bit limits, both diff units.", TB_LIB)
+r("C28", E3, "runtime monitor + Miri: decode of random / mutated / structure-aware reports vs independent ABI slicing",
+  "Exploration (no panic on any byte string, blob equality, conversion ordering / scaling) plus a Miri shard for UB in the decode path.", TB_LIB + "; Miri (nightly) for the UB part")
+r("C29", E2, "runtime monitor: adjusted price band oracle (hooked function) + stored oracle prices at instruction level",
+  "Exploration over feed prices, references, multipliers, deviation factors.", TB_SVM)
+r("C30", E2, "runtime monitor: GT reference ledger vs store / user accounts after every instruction",
+  "Exploration over mints (order-driven and reward), exchange requests, windows, rank tables, cost growth settings.", TB_SVM)
+r("C31", E4, "runtime monitor: discount formula BigInt oracle; program vs SDK differential",
+  "Exploration over rank tables <=100%, ranks, referral discounts.", TB_LIB)
+r("C32", E2, "runtime monitor: builder-fee helper oracle (hooked) + settle_builder_fee token conservation",
+  "Exploration over sizes, factors, prices, increments, outputs, repeated settlements.", TB_SVM)
+r("C33", E2, "runtime monitor: referral reference relation vs user accounts after every instruction",
+  "Exploration over code creation, referrer setting, transfers among >=5 users.", TB_SVM)
+r("C34", E3, "runtime monitor + Miri: fixed_map! instances vs BTreeMap reference",
+  "Exploration over op sequences on key universes 2–3× capacity for every capacity shape used by the programs plus tiny ones; Miri shard.", TB_LIB + "; Miri")
+r("C35", E2, "runtime monitor: name round trip (helpers and real creating instructions)",
+  "Enumeration of strings 0..cap+2 over an alphabet incl. NUL / multi-byte for every name field.", TB_SVM)
+r("C36", E2, "runtime monitor: timelock reference automaton + CPI capture vs buffered instruction",
+  "Exploration over create/approve/cancel/execute/increase-delay/role changes/clock interleavings and instruction shapes.", TB_SVM)
+r("C37", E2, "runtime monitor: GT bank payout BigInt oracle over random claim orders (real treasury program)",
+  "Exploration over bank balances, confirmed GT totals, claim orders; factor setters.", TB_SVM)
+r("C38", E2, "runtime monitor: APY schedule BigInt definition + unstake rules at instruction level",
+  "Exploration over stake times, gradients, values, unstake amounts.", TB_SVM)
+r("C39", E2, "runtime monitor: leaderboard vs volume reference map after every counted trade",
+  "Exploration over trade sequences from many traders, thresholds, merge windows, extensions.", TB_SVM)
+r("C40", E4, "runtime monitor: SDK vs program differential on identical account bytes (accessors, layouts, simulations)",
+  "Exploration over random valid market account contents, prices, action parameters.", TB_LIB)
+r("C41", E3, "runtime monitor: transaction packing reference checks + real serialized size",
+  "Exploration over random group sequences, signers, payers, lookup tables, memo, limits.", TB_LIB)
+r("C42", E4, "runtime monitor: brute-force path enumeration oracle on small random market graphs (hooked constructor)",
+  "Exploration over graphs <=6 tokens / <=8 markets, with and without negative cycles.", TB_LIB)
+r("C43", E4, "runtime monitor: Decimal round trips for all integer classes × decimals",
+  "Exploration over u64/u128/i128 values and decimals 0..40; no panic; unrepresentable ⇒ error.", TB_LIB)
+r("C44", E2, "runtime monitor: independent path validator + SwapExecuted events + recorded-balance deltas (real swap orders in hostsvm)",
+  "Exploration over swap paths of length 0..10 across 5 markets / 3 tokens, valid and invalid, swap orders and deposits with paths.", TB_SVM)
+r("C45", E2, "runtime monitor: GLV composition / cap / round-trip oracles over real GLV instructions in hostsvm",
+  "Exploration over GLV compositions, market states, prices, deposit / withdraw amounts.", TB_SVM)
